@@ -179,7 +179,7 @@ Qed.
 
 (* ---- C18: what a refused board message can leave behind ---- *)
 Definition no_state_writes (tr : list write) : Prop :=
-  forall w, In w tr -> match w with WSrc _ _ | WSend _ => True | _ => False end.
+  forall w, In w tr -> match w with WSrc _ _ _ | WSend _ => True | _ => False end.
 
 Definition needs_lazy_restart (s : string) : bool := has_suffix s "_error" || has_suffix s "_timeout".
 
@@ -274,4 +274,20 @@ Proof.
     + apply (Hstep5 _ i2 eq_refl H).
     + inversion H; subst. exact Hnil.
   - apply (Hstep5 _ inst eq_refl H).
+Qed.
+
+(* a reinitialisation message that cannot be decoded, or that names no round (blank identifier),
+   is refused before anything is written; one that names a round the node already holds is
+   absorbed without a write *)
+Theorem unusable_reinit_writes_nothing now st r :
+  (match r with None => True | Some rd => rd_id rd = 0%N \/ tget' (ns_rounds st) (rd_id rd) <> None end) ->
+  match reinit_dkg now {| h_st := st; h_tr := [] |} r with
+  | ROk h _ | RErr h => h = {| h_st := st; h_tr := [] |}
+  | RPanic => False
+  end.
+Proof.
+  intros H. unfold reinit_dkg. destruct r as [rd|]; [|reflexivity].
+  destruct (N.eqb (rd_id rd) 0) eqn:E0; [reflexivity|].
+  destruct H as [H|H]; [rewrite H in E0; discriminate|].
+  cbn [h_st]. destruct (tget' (ns_rounds st) (rd_id rd)); [reflexivity|contradiction].
 Qed.
